@@ -3,6 +3,7 @@
 // with a seed-chosen fill and seed-chosen immediate reuse, checks deallocate(p, n) against allocate(n) and balances.
 // Built twice: default -> igris/container/vector.h + flat_map.h + flat_set.h ; -DC02_TWIN -> igris/container/std_portable.h.
 #include "../sim/kit.h"
+#include <limits>
 #include "../sim/simalloc.h"
 #include "../sim/tracked.h"
 
@@ -294,6 +295,13 @@ namespace
                         {
                             if (pos < mx.size()) mid_edit = true;
                             if (k == V_INSERT_ALIAS) x.insert((typename Vec::const_iterator)(x.data() + pos), x[j]);
+                            else if constexpr (requires(E &e) { { e.v } -> std::same_as<int &>; })
+                            {
+                                // half of the time the constructor argument is not the element but a member of it (a reference to a
+                                // sub-object that lives inside the vector): emplace(pos, v[j].field)
+                                if (val % 2) { x.emplace((typename Vec::const_iterator)(x.data() + pos), x[j].v); probe("emplace_argument_is_a_member_of_an_element"); }
+                                else x.emplace((typename Vec::const_iterator)(x.data() + pos), x[j]);
+                            }
                             else x.emplace((typename Vec::const_iterator)(x.data() + pos), x[j]);
                             mx.insert(mx.begin() + pos, v0);
                         }
@@ -423,6 +431,14 @@ namespace
                         if (lt != (m[0] < m[1])) violate("C02/compare-lt", "operator< gives %d, std::vector gives %d", (int)lt, (int)(m[0] < m[1]));
 #endif
                         if (!(x == x)) violate("C02/compare-eq", "a vector does not compare equal to itself");
+                        {
+                            // ... unless one of its elements does not equal itself: equality is element-wise, as for std::vector
+                            igris::vector<double, AllocX<double>> nv;
+                            std::vector<double> sn;
+                            for (int q = 0; q < 1 + val % 3; q++) { nv.push_back(q == val % 2 ? std::numeric_limits<double>::quiet_NaN() : 1.5 * q); sn.push_back(q == val % 2 ? std::numeric_limits<double>::quiet_NaN() : 1.5 * q); }
+                            if ((nv == nv) != (sn == sn) || (nv != nv) != (sn != sn))
+                                violate("C02/compare-eq", "a vector holding a NaN compared with itself: == gives %d and != gives %d, std::vector gives %d and %d", (int)(nv == nv), (int)(nv != nv), (int)(sn == sn), (int)(sn != sn));
+                        }
                         if (eq && !m[0].empty()) probe("equal_non_empty_vectors_compared");
                         {
                             // a separately built vector with equal elements compares equal; with one element changed it does not
